@@ -74,7 +74,13 @@ def set_alpha(param_owner, new, route):
 def pytorch_inference_limit(ex):
     """PyTorch forbids using / updating a tensor created under torch.inference_mode() in autograd afterwards; a
     sequence that runs into this restriction is cut there (counted), it says nothing about the property"""
-    return isinstance(ex, RuntimeError) and 'nference tensor' in str(ex)
+    seen = 0
+    while ex is not None and seen < 6:          # fx.Interpreter / ShapeProp re-raise with the original as cause / context
+        if isinstance(ex, RuntimeError) and 'nference tensor' in str(ex):
+            return True
+        ex = ex.__cause__ or ex.__context__
+        seen += 1
+    return False
 
 
 def _torch():
@@ -936,6 +942,10 @@ def run(ctx):
                         if role in rec:
                             selx.append('run_selected %s' % coq(c30(rec[role]['alpha'])))
                             selm.append((r['spec'], rec['layer'], role, rec[role]))
+            for r in nres:
+                for rec in r.get('selrecs', []):
+                    selx.append('run_selected %s' % coq(c30(rec['alpha'])))
+                    selm.append((r['spec'], rec['layer'], rec['role'], rec))
             selv = ctx.coq_eval_sharded('selected', ['Plinio.Model.Sampler'], '', selx, shard=400) if selx else []
             for (sp, ln, role, rec), sv in zip(selm, selv):
                 ctx.corr += 1
